@@ -10,6 +10,9 @@ extern "C" {
 
 // ---------------------------------------------------------------- ghost state
 usize g_woff;      // watched byte offset, see contracts/memory.c
+usize g_woff2;     // second watched offset, for bytes that are copied twice
+bool g_need2;      // the model byte travels through an intermediate position ...
+usize g_mid;       // ... at this view index of the final storage
 usize g_cmp_wit;   // witness index chosen by the Memory::compare contract
 usize g_cmp_k;     // universally quantified index for Memory::compare
 usize g_k;         // ghost view index (universally quantified)
@@ -69,7 +72,8 @@ bool post_view(const Buffer* b)
   int kind = b->buffer ? 1 : b->bufferStart == (const byte*)&b->_capacity ? 0 : 2;
   if(g_exp_kind >= 0 && kind != g_exp_kind)
     return false;
-  if(g_exp_has && g_k < size && NV_OFFSET(b->bufferStart) + g_k == g_woff)
+  if(g_exp_has && g_k < size && NV_OFFSET(b->bufferStart) + g_k == g_woff &&
+     (!g_need2 || NV_OFFSET(b->bufferStart) + g_mid == g_woff2))
     return b->bufferStart[g_k] == g_exp_byte;
   return true;
 }
@@ -169,7 +173,7 @@ static void build(Buffer& b, Pre& p, unsigned salt)
 
 // the ghost index and the watched byte of the old view
 #define NV_GHOST_INDEX() \
-  NV_INPUT(usize, k); NV_INPUT(usize, woff); g_k = k; g_woff = woff; g_cmp_k = k; \
+  NV_INPUT(usize, k); NV_INPUT(usize, woff); NV_INPUT(usize, woff2); g_k = k; g_woff = woff; g_woff2 = woff2; g_cmp_k = k; g_need2 = false; g_mid = 0; \
   g_exp_mincap = 0; g_exp_kind = -1; g_exp_has = false
 
 static byte old_at(Buffer& b, usize i, byte v)
@@ -515,6 +519,8 @@ void h_append_buf()
     g_exp_byte = old_at(b, k, vbyte);
   else
     g_exp_byte = old_at(o, k - old, vbyte);
+  // b.append(b) with reallocation copies byte k-old to the new storage first and from there to k
+  if(alias && k >= old) { g_need2 = true; g_mid = k - old; }
   NV_PRE(wf_Buffer(&b) && wf_Buffer(&o));
   b.append(o);
   NV_POST("Buffer::append(const Buffer&) postcondition", post_view(&b) && (alias || wf_Buffer(&o)));
